@@ -12,7 +12,7 @@ use oxidize_pdf::objects::ObjectId;
 use serde_json::{json, Value};
 use std::io::Write;
 
-const PW_POOL: [(&str, &str); 14] = [
+const PW_POOL: [(&str, &str); 17] = [
     ("empty", ""),
     ("ascii", "userpw"),
     ("ascii", "Owner-Pass 123"),
@@ -27,6 +27,11 @@ const PW_POOL: [(&str, &str); 14] = [
     ("astral", "pw\u{1F600}key"),
     ("saslprep_changes", "\u{FB01}le\u{00AD}name\u{00A0}x"),
     ("saslprep_changes", "\u{2168}\u{FF21}"),
+    // longer than 32 bytes with a multi-byte character straddling byte 32 (x + 15 ñ = 31 bytes, the 16th ñ is bytes 31-32)
+    ("nonascii_straddles_byte32", "xññññññññññññññññññññññññ"),
+    ("nonascii_straddles_byte32", "漢漢漢漢漢漢漢漢漢漢漢漢漢漢漢漢漢漢漢漢"),
+    // longer than 32 bytes with a character boundary exactly at byte 32
+    ("nonascii_boundary_at_byte32", "ññññññññññññññññtail-after-32"),
 ];
 
 fn guard<T>(rec: &mut Recorder, name: &str, f: impl FnOnce() -> T) -> Option<T> {
